@@ -3,7 +3,7 @@ ENGINES = {
     "preempt": dict(
         path="harness/preempt.go harness/preempt_gen.go harness/preempt_more.go coq/Preempt coq/Oracles/PreemptCheck.v coq/Props/C07.v coq/Props/C08.v",
         about="Gallina model of Queue.FindEligiblePreemptionVictims / Preemptor / PreemptionContext / QuotaPreemptionContext on generated worlds; potential victim sets, precondition and guarantee checks compared exactly, the committed victim list validated (decision validation) and predicted exactly when creation times are distinct",
-        n=dict(quick=600, thorough=1000), shards=dict(quick=1, thorough=8),
+        n=dict(quick=600, thorough=1000), shards=dict(quick=1, thorough=20),
         kinds={
             1: dict(cls="corr", props=["C07"], what="model and implementation disagree on who may ask / who may be a victim (preconditions, potential victim sets, required node and quota candidate filters)"),
             4: dict(cls="corr", props=["C08"], what="model and implementation disagree on what is done with the candidates (guarantee check, chosen victims, preempting ledger, quota shares and timing)"),
